@@ -34,7 +34,7 @@ ASSUMPTIONS = [
   "open (non-teletext) subtitles: colour before any colour code and after a newline not judged; italics/underline after a newline may persist or reset",
   "boxing (0Ah/0Bh, 84h/85h): no effect on text presence judged; background after a boxing code not judged; mosaic/conceal/reserved codes: subtitle not judged",
   "green may be #00FF00 or #008000; JC = 0: alignment not judged; cumulative members may share one paragraph or be separate",
-  "vertical position: only displayAlign in {before, after}, region inside the safe area when VP..VP+rows-1 fits the documented row count, and vertical order of anchors (a larger VP is never placed above a smaller one; two fitting VP >= 1 never coincide; VP 0 and 1 may) for equal-shape subtitles with the same displayAlign; no exact coordinates, no double-height geometry",
+  "vertical position: only displayAlign in {before, after}, region inside the safe area when VP..VP+rows-1 fits the documented row count, and vertical order of anchors (a larger VP is never placed above a smaller one; two fitting VP >= 1 never coincide; VP 0 and 1 may) for equal-shape subtitles with the same displayAlign; anchor side judged away from the middle of the row grid in force (rows entirely above 40 % of the grid: top-anchored; VP below 60 %: bottom-anchored; the reader's own rule is VP < rows // 2); no exact coordinates, no double-height geometry",
   "files with a CS sequence other than 01 02* 03 (per set): only 'the reader does not crash' is judged (abstain:cs-irregular); a regular set whose first member precedes the programme start IS judged (remaining members at their own times)",
   "each block's text field ends at its first unused-space code (8Fh); the blocks of a subtitle are then concatenated",
   "extension blocks whose CS/TCI/TCO differ from the first block, invalid time-code labels, TCO < TCI, unknown DFC/CCT: not judged; differing VP/JC inside a chain: layout not judged",
@@ -48,7 +48,7 @@ REQUIRED = ["files", "corpus:files", "table:files", "probe:isd", "cmp:chars", "c
             "feat:diacritic-pair", "feat:control", "feat:newline", "feat:space-run",
             "dfc:STL25.01", "dfc:STL30.01", "dfc:STL24.01", "dfc:STL50.01", "dfc:STL23.01",
             "cct:00", "cct:01", "cct:02", "cct:03", "cct:04", "dsc:teletext", "dsc:open",
-            "cfg:start:None", "cfg:start:TCP", "cfg:start:literal", "cfg:rows:None", "cfg:rows:MNR", "cfg:rows:int"]
+            "cfg:start:None", "cfg:start:TCP", "cfg:start:literal", "cfg:rows:None", "cfg:rows:MNR", "cfg:rows:int", "cmp:anchor"]
 SHARD_TIMEOUT = {"quick": 900, "thorough": 5400}
 
 CORPUS_DIR = "src/test/resources/stl"
@@ -361,6 +361,18 @@ class FileCheck:
           diffs.append(("region:outside-safe-area" + tag,
                         f"VP={subs[0].vp} rows={self.max_rows(subs[0])} of {self.rows_cfg}: region {reg['id']} x={float(x):.3f} y={float(y):.3f} "
                         f"w={float(w):.3f} h={float(h):.3f} not inside the safe area [5,95]x[10,90]"))
+      # anchoring follows the position on the row grid in force (23 rows, or max_row_count for open subtitles): judged away
+      # from the middle only, so that the exact threshold (and its rounding) is the reader's choice
+      R, n, vp = self.rows_cfg, self.max_rows(subs[0]), subs[0].vp
+      if R >= 6 and reg["da"] in ("before", "after"):
+        want_da = "before" if 10 * (vp + n - 1) < 4 * R else ("after" if 10 * vp > 6 * R else None)
+        if want_da is not None:
+          if count:
+            self.ctx.count("cmp:anchor")
+          if reg["da"] != want_da:
+            diffs.append(("region:anchor-side", f"VP={vp} rows={n} of {R} ({'teletext' if self.rf.teletext else 'open'}, max_row_count="
+                          f"{self.cfg.get('max_row_count')!r}): subtitle in the {'upper' if want_da == 'before' else 'lower'} part of the row grid "
+                          f"is anchored {reg['da']}"))
     return diffs
 
   def max_rows(self, s):
